@@ -187,7 +187,7 @@ func (p *Proxy) handleRangeRequest(r responder.Responder, req *http.Request, cac
 	r.SetHeader("Content-Range", fmt.Sprintf("bytes %d-%d/%d", start, end, cached.Metadata.Size))
 	r.SetHeader("Content-Length", fmt.Sprintf("%d", length))
 	r.SetHeader("ETag", cached.Metadata.Object.ETag)
-	r.SetHeader("Last-Modified", cached.Metadata.Object.LastModified.Format(http.TimeFormat))
+	r.SetHeader("Last-Modified", cached.Metadata.Object.LastModified.UTC().Format(http.TimeFormat))
 
 	sections := io.NewSectionReader(cached.Data, start, length)
 	return finalizeAndRespond(r, sections, http.StatusPartialContent, req)
@@ -259,7 +259,7 @@ func (p *Proxy) processRequest(r responder.Responder, req *http.Request, key cac
 		r.SetHeaders(fetched.Cached.Entry.Metadata.Object.Header)
 		r.SetHeader("Accept-Ranges", "bytes")
 		r.SetHeader("ETag", fetched.Cached.Entry.Metadata.Object.ETag)
-		r.SetHeader("Last-Modified", fetched.Cached.Entry.Metadata.Object.LastModified.Format(http.TimeFormat))
+		r.SetHeader("Last-Modified", fetched.Cached.Entry.Metadata.Object.LastModified.UTC().Format(http.TimeFormat))
 		addCacheHeaders(r, req, typeutils.Some(fetched.Cached.Entry), fetchResultToCacheStatus(fetched))
 
 		slog.Debug("Serving cached response", "url", req.URL, "key", key)
